@@ -40,6 +40,32 @@ static inline bool iora_tmap_it_is_end(const iora_tmap_it *it) { return !it->fou
 static inline const CacheEntry *iora_tmap_it_entry(const iora_tmap_it *it) { IORA_ASSERT(it->found, "unordered_map iterator dereferenced only when it is not end()"); return &it->e; }
 static inline void iora_tmap_set(iora_tmap *m, uint64_t k, uint64_t value, iora_tp expiration)       /* m[k] = {value, expiration} */
 { if (k == GKEY) { m->has = true; m->e.value = value; m->e.expiration = expiration; } }
+/* m.try_emplace(k, CacheEntry{value, expiration}) -> pair<iterator, bool>: inserts only if the key is absent; an existing entry is left
+ * UNTOUCHED (value and expiration) and inserted == false. The iterator addresses the entry of k afterwards. */
+typedef struct { iora_tmap_it it; bool inserted; } iora_tmap_ins;
+static inline iora_tmap_ins iora_tmap_try_emplace(iora_tmap *m, uint64_t k, uint64_t value, iora_tp expiration)
+{
+  iora_tmap_ins r; r.it.key = k; r.it.found = true;
+  if (k == GKEY)
+  {
+    if (!m->has) { m->has = true; m->e.value = value; m->e.expiration = expiration; r.inserted = true; }
+    else r.inserted = false;
+    r.it.e = m->e;
+  }
+  else
+  {
+    r.inserted = nondet_bool();
+    if (r.inserted) { r.it.e.value = value; r.it.e.expiration = expiration; } else { r.it.e.value = nondet_u64(); r.it.e.expiration = nondet_i64(); }
+  }
+  return r;
+}
+/* it->second.value = x: a write THROUGH the iterator into the map entry it addresses */
+static inline void iora_tmap_it_store_value(iora_tmap *m, iora_tmap_it *it, uint64_t x)
+{
+  IORA_ASSERT(it->found, "unordered_map iterator dereferenced only when it is not end()");
+  if (it->key == GKEY) { IORA_ASSERT(m->has, "iterator of the witness key still valid"); m->e.value = x; }
+  it->e.value = x;
+}
 static inline void iora_tmap_erase(iora_tmap *m, iora_tmap_it it)
 { IORA_ASSERT(it.found, "unordered_map::erase(iterator): dereferenceable iterator"); if (it.key == GKEY) m->has = false; }
 
